@@ -156,20 +156,40 @@ def _ctx(c):
     return "" if c is None else (" with context" if c else " without context")
 
 
-def pbody(body, wrap=None):
-    return "".join(ps(s, wrap) for s in body)
+class Opts:
+    """Printer options: ``flag`` = source of the expression of the autoescape regions to open (None: no regions),
+    ``ext`` = suffix appended to every referenced template name (include / import / from / extends) except missing ones."""
+
+    def __init__(self, flag=None, ext="", missing=("nope",)):
+        self.flag, self.ext, self.missing = flag, ext, missing
+
+    def name(self, n):
+        return n if n in self.missing else n + self.ext
 
 
-def _wrapped(body, wrap):
-    inner = pbody(body, wrap)
-    if wrap is None:
-        return inner
-    return "{%% autoescape %s %%}%s{%% endautoescape %%}" % (wrap, inner)
+_PLAIN = Opts()
 
 
-def ps(s, wrap=None):
-    """Source of one statement.  ``wrap`` is only consulted for block bodies (a block tag is compiled
-    with the template-level eval context, so a region has to be opened inside it)."""
+def pbody(body, o=_PLAIN):
+    return "".join(ps(s, o) for s in body)
+
+
+def _region(flag, inner):
+    return "{%% autoescape %s %%}%s{%% endautoescape %%}" % (flag, inner)
+
+
+def _wrapped(body, o):
+    inner = pbody(body, o)
+    return inner if o.flag is None else _region(o.flag, inner)
+
+
+def _params(ps_):
+    return ", ".join(p if d is None else "%s=%s" % (p, pe(d)) for p, d in ps_)
+
+
+def ps(s, o=_PLAIN):
+    """Source of one statement.  ``o.flag`` is only consulted for block bodies (a block tag is compiled with the
+    template-level eval context, so a region has to be opened inside it)."""
     k = s[0]
     if k == "text":
         return s[1]
@@ -178,75 +198,72 @@ def ps(s, wrap=None):
     if k == "set":
         return "{%% set %s = %s %%}" % (s[1], pe(s[2]))
     if k == "setblock":
-        return "{%% set %s%s %%}%s{%% endset %%}" % (s[1], " | " + _pchain(s[2]) if s[2] else "", pbody(s[3], wrap))
+        return "{%% set %s%s %%}%s{%% endset %%}" % (s[1], " | " + _pchain(s[2]) if s[2] else "", pbody(s[3], o))
     if k == "if":
-        r = "{%% if %s %%}%s" % (pe(s[1]), pbody(s[2], wrap))
+        r = "{%% if %s %%}%s" % (pe(s[1]), pbody(s[2], o))
         if s[3] is not None:
-            r += "{% else %}" + pbody(s[3], wrap)
+            r += "{% else %}" + pbody(s[3], o)
         return r + "{% endif %}"
     if k == "for":
-        r = "{%% for %s in %s%s %%}%s" % (", ".join(s[1]), pe(s[2]), " recursive" if s[5] else "", pbody(s[3], wrap))
+        r = "{%% for %s in %s%s %%}%s" % (", ".join(s[1]), pe(s[2]), " recursive" if s[5] else "", pbody(s[3], o))
         if s[4] is not None:
-            r += "{% else %}" + pbody(s[4], wrap)
+            r += "{% else %}" + pbody(s[4], o)
         return r + "{% endfor %}"
     if k == "with":
-        return "{%% with %s %%}%s{%% endwith %%}" % (", ".join("%s = %s" % (n, pe(x)) for n, x in s[1]), pbody(s[2], wrap))
+        return "{%% with %s %%}%s{%% endwith %%}" % (", ".join("%s = %s" % (n, pe(x)) for n, x in s[1]), pbody(s[2], o))
     if k == "macro":
-        params = ", ".join(p if d is None else "%s=%s" % (p, pe(d)) for p, d in s[2])
-        return "{%% macro %s(%s) %%}%s{%% endmacro %%}" % (s[1], params, pbody(s[3], wrap))
+        return "{%% macro %s(%s) %%}%s{%% endmacro %%}" % (s[1], _params(s[2]), pbody(s[3], o))
     if k == "callblock":
-        return "{%% call%s %s %%}%s{%% endcall %%}" % ("(%s)" % ", ".join(s[1]) if s[1] else "", pe(s[2]), pbody(s[3], wrap))
+        return "{%% call%s %s %%}%s{%% endcall %%}" % ("(%s)" % ", ".join(s[1]) if s[1] else "", pe(s[2]), pbody(s[3], o))
     if k == "filter":
-        return "{%% filter %s %%}%s{%% endfilter %%}" % (_pchain(s[1]), pbody(s[2], wrap))
+        return "{%% filter %s %%}%s{%% endfilter %%}" % (_pchain(s[1]), pbody(s[2], o))
     if k == "include":
-        return "{%% include %s%s%s %%}" % (lit(s[1]), " ignore missing" if s[3] else "", _ctx(s[2]))
+        return "{%% include %s%s%s %%}" % (lit(o.name(s[1])), " ignore missing" if s[3] else "", _ctx(s[2]))
     if k == "import":
-        return "{%% import %s as %s%s %%}" % (lit(s[1]), s[2], _ctx(s[3]))
+        return "{%% import %s as %s%s %%}" % (lit(o.name(s[1])), s[2], _ctx(s[3]))
     if k == "from":
         names = ", ".join(a if b is None else "%s as %s" % (a, b) for a, b in s[2])
-        return "{%% from %s import %s%s %%}" % (lit(s[1]), names, _ctx(s[3]))
+        return "{%% from %s import %s%s %%}" % (lit(o.name(s[1])), names, _ctx(s[3]))
     if k == "block":
-        return "{%% block %s%s %%}%s{%% endblock %%}" % (s[1], " scoped" if s[2] else "", _wrapped(s[3], wrap))
+        return "{%% block %s%s %%}%s{%% endblock %%}" % (s[1], " scoped" if s[2] else "", _wrapped(s[3], o))
     if k == "extends":
-        return "{%% extends %s %%}" % lit(s[1])
+        return "{%% extends %s %%}" % lit(o.name(s[1]))
     if k == "autoescape":
-        return "{%% autoescape %s %%}%s{%% endautoescape %%}" % (pe(s[1]), pbody(s[2], wrap))
+        return "{%% autoescape %s %%}%s{%% endautoescape %%}" % (pe(s[1]), pbody(s[2], o))
     raise ValueError("unknown statement %r" % (s,))
 
 
-def print_template(body, wrap=None, split_macros=False):
+def print_template(body, wrap=None, split_macros=False, ext=""):
     """Source of a template body.  ``wrap`` (source of a flag expression, e.g. "true" or "fl") puts every
     top-level run of statements into ``{% autoescape wrap %}`` regions; block tags and extends stay outside
     (block bodies are wrapped inside the tag), and with ``split_macros`` macro definitions stay outside too
-    with their *body* wrapped (so the macro is defined with autoescape off and called with autoescape on)."""
+    with their *body* wrapped (so the macro is defined with autoescape off and called with autoescape on).
+    ``ext`` is appended to every referenced template name."""
+    o = Opts(wrap, ext)
     if wrap is None:
-        return pbody(body)
+        return pbody(body, o)
     out, run = [], []
 
     def flush():
         if run:
-            out.append("{%% autoescape %s %%}%s{%% endautoescape %%}" % (wrap, "".join(run)))
+            out.append(_region(wrap, "".join(run)))
             del run[:]
 
     for s in body:
-        if s[0] == "extends":
+        if s[0] in ("extends", "block"):
             flush()
-            out.append(ps(s, wrap))
-        elif s[0] == "block":
-            flush()
-            out.append(ps(s, wrap))
+            out.append(ps(s, o))
         elif s[0] == "macro" and split_macros:
             flush()
-            params = ", ".join(p if d is None else "%s=%s" % (p, pe(d)) for p, d in s[2])
-            out.append("{%% macro %s(%s) %%}%s{%% endmacro %%}" % (s[1], params, _wrapped(s[3], wrap)))
+            out.append("{%% macro %s(%s) %%}%s{%% endmacro %%}" % (s[1], _params(s[2]), _wrapped(s[3], o)))
         else:
-            run.append(ps(s, wrap))
+            run.append(ps(s, o))
     flush()
     return "".join(out)
 
 
-def print_templates(templates, wrap=None, split_macros=False):
-    return {name: print_template(body, wrap, split_macros) for name, body in templates.items()}
+def print_templates(templates, wrap=None, split_macros=False, ext=""):
+    return {name + ext: print_template(body, wrap, split_macros, ext) for name, body in templates.items()}
 
 
 # ---------------------------------------------------------------------------------------------------------
@@ -328,6 +345,10 @@ SS_RICH = ["capitalize", "lower", "upper", "title", "trim", "string", "striptags
            "pprint", "indent", "replace", "truncate", "wordwrap", "format"]
 # on plain strings in neutral mode (nothing that produces markup or consumes it)
 SS_NEUTRAL = [f for f in SS_RICH if f not in ("striptags", "e", "escape", "forceescape")]
+# filters of filter sections / filtered set blocks in rich mode (finding N1 excludes the others)
+BLOCK_RICH = ["capitalize", "lower", "upper", "title", "trim", "string", "e", "escape", "forceescape", "urlencode", "center", "indent",
+              "truncate", "wordwrap", "replace", "format", "reverse", "first", "last", "indent", "replace", "truncate"]
+BLOCK_SPEC = {"wordwrap": _spec("width:w? break_long_words:b?")}
 # content-preserving filters allowed on hi operands (both modes)
 SS_HI = ["string", "trim", "default", "d"]
 STR_METHODS = ["upper", "lower", "title", "capitalize", "swapcase", "casefold", "strip", "lstrip", "rstrip", "replace", "format",
@@ -371,17 +392,22 @@ class _Lex:
 
 
 class _Gen:
-    def __init__(self, draw, neutral, size):
-        self.draw, self.neutral, self.budget = draw, neutral, size
+    def __init__(self, tape, neutral, size):
+        self.tape, self.pos, self.neutral, self.budget = tape, 0, neutral, size
         self.ntok = 0
         self.max_depth = 3
 
-    # -- small draws ----------------------------------------------------------------------------------
+    # -- small draws: every choice reads one byte of the Hypothesis-drawn tape (0 = the first, simplest alternative;
+    #    an exhausted tape keeps answering 0), which is ~30x cheaper than one st.integers() draw per choice
     def i(self, lo, hi):
-        return self.draw(st.integers(lo, hi))
+        if self.pos >= len(self.tape):
+            return lo
+        b = self.tape[self.pos]
+        self.pos += 1
+        return lo + b % (hi - lo + 1)
 
     def chance(self, num, den):
-        return self.i(1, den) <= num
+        return self.i(0, den - 1) >= den - num
 
     def pick(self, seq):
         return seq[self.i(0, len(seq) - 1)]
@@ -484,21 +510,28 @@ class _Gen:
         return ["call", ["v", "caller"], [self.lo_s(lex, 1) for _ in range(lex.caller)], []]
 
     # -- arguments for a filter -----------------------------------------------------------------------
-    def filter_args(self, lex, name, d):
-        spec = SPEC.get(name, [])
+    def filter_args(self, lex, name, d, spec=None, const=False):
+        spec = SPEC.get(name, []) if spec is None else spec
         args, kwargs = [], []
         kw_mode = False
         for pname, code, optional in spec:
             if optional and not self.chance(2, 3):
                 kw_mode = True
                 continue
-            e = self.arg(lex, code, d)
+            e = self.const_arg(code) if const else self.arg(lex, code, d)
             if kw_mode or (optional and self.chance(1, 4)):
                 kw_mode = True
                 kwargs.append([pname, e])
             else:
                 args.append(e)
         return args, kwargs
+
+    def const_arg(self, code):
+        if code == "s" or (code == "I" and self.chance(1, 2)):
+            return self.s_lit()
+        if code == "b":
+            return ["b", self.chance(1, 2)]
+        return ["i", self.pick((2, 0, 1, 3, 5, 8, 12, 20, 40))]
 
     def arg(self, lex, code, d):
         if code == "s":
@@ -794,17 +827,20 @@ class _Gen:
             return ["out", self.hi_s(lex, 2)]
         return ["out", self.lo_s(lex, 2)]
 
-    def chain(self, lex, neutral_only):
-        """A filter chain for a filter section / filtered set block (string -> string)."""
+    def chain(self, lex, neutral_only, const_args=False):
+        """A filter chain for a filter section / filtered set block (string -> string).  Only filters whose result
+        on the rendered (safe) body is again safe or built from escaped material: see finding N1 in c15.py
+        (wordwrap's wrapstring, default, join, striptags, batch/slice are excluded there).  ``const_args``: set-block
+        filter arguments must be constants (names in them do not compile, finding N3)."""
         n = self.weighted([(1, 5), (2, 2)])
         out = []
         for _ in range(n):
             if neutral_only:
                 name = self.pick(NEUTRAL_BLOCK_FILTERS + ("default",))
-                out.append([name, [self.lo_s(lex, 0)] if name == "default" else [], []])
+                out.append([name, [["s", "-"], ["b", True]] if name == "default" else [], []])
             else:
-                name = self.pick([f for f in SS_RICH if f not in ("first", "last", "reverse", "pprint")])
-                args, kwargs = self.filter_args(lex, name, 1)
+                name = self.pick(BLOCK_RICH)
+                args, kwargs = self.filter_args(lex, name, 1, spec=BLOCK_SPEC.get(name), const=const_args)
                 out.append([name, args, kwargs])
         return out
 
@@ -920,7 +956,7 @@ class _Gen:
             name, body_hi, neutral_only = self.pick(("r0", "r1")), True, True
         else:
             name, body_hi, neutral_only = self.pick(("p0", "p1")), False, False
-        ch = self.chain(lex, neutral_only) if self.chance(1, 3) else []
+        ch = self.chain(lex, neutral_only, const_args=True) if self.chance(1, 3) else []
         c = lex.child(toplevel=False, emit_hi=body_hi)
         s = ["setblock", name, ch, self.block(c, 1, 3)]
         pool = lex.hi if name[0] == "r" else lex.lo
@@ -931,15 +967,20 @@ class _Gen:
             use = ["out", self.lo_s(lex, 2)]
         return [s, use]
 
-    def macro(self, lex, prefix=None):
+    def macro(self, lex):
+        """-> [macro definition, a use of it] ([] when every macro name of the wanted kind is taken: a name is
+        defined once per template, so that a body that calls an earlier macro can never reach itself)."""
         if self.neutral:
-            kind = "m"
-            name = self.pick(("m0", "m1", "m2"))
-            result_hi = True
+            kind, pool, result_hi = "m", ("m0", "m1", "m2"), True
+        elif self.chance(1, 3):
+            kind, pool, result_hi = "u", ("u0", "u1"), True
         else:
-            kind = "u" if self.chance(1, 3) else "m"
-            name = self.pick(("u0", "u1")) if kind == "u" else self.pick(("m0", "m1", "m2"))
-            result_hi = kind == "u"
+            kind, pool, result_hi = "m", ("m0", "m1", "m2"), False
+        free = [n for n in pool if n not in lex.used]
+        if not free:
+            return [self.out(lex)]
+        name = self.pick(free)
+        lex.used.add(name)
         params = []
         for p in ("a0", "a1", "h0"):
             if self.chance(1, 2) and (p != "h0" or result_hi):
@@ -958,9 +999,7 @@ class _Gen:
         c.macros = {n: d for n, d in lex.macros.items() if n != name}
         body = self.block(c, 1, 4)
         if caller is not None:
-            pos = self.i(0, len(body))
-            if result_hi or not self.neutral:
-                body.insert(pos, ["out", self.caller_call(c)])
+            body.insert(self.i(0, len(body)), ["out", self.caller_call(c)])
         desc = {"params": params, "caller": caller, "hi": result_hi, "callee": ["v", name]}
         lex.macros[name] = desc
         out = [["macro", name, [[p, defaults.get(p)] for p, _, _ in params], body]]
@@ -1027,53 +1066,48 @@ class _Gen:
         shape = self.weighted([("plain", 5), ("libs", 5), ("blocks", 2), ("extends", 3)])
         if shape in ("libs", "extends") or self.chance(1, 4):
             inc = _Lex()
-            inc.emit_hi = self.neutral
             templates["inc"] = [["text", "I:"]] + self.block(inc.child(emit_hi=self.neutral), 1, 3)
-            main.libs = {}
+            main.has_inc = True
             libbody, desc = self.library("lib")
             templates["lib"] = libbody
             how = self.weighted([("import", 3), ("from", 3), ("none", 1)])
-            ctx = self.pick((None, True, False))
+            ctx = self.pick((None, True, True, True, False))
             if how == "import":
                 head.append(["import", "lib", "lib", ctx])
                 for n, d in desc["macros"].items():
                     main.macros["lib." + n] = dict(d, callee=["attr", ["v", "lib"], n])
                 main.libs["lib"] = desc
-            elif how == "from":
+            elif how == "from" and desc["macros"]:
                 names = sorted(desc["macros"])
-                if names:
-                    head.append(["from", "lib", [[n, None] for n in names] + ([["p0", "q0"]] if desc["lo"] else []), ctx])
-                    for n in names:
-                        main.macros[n] = desc["macros"][n]
-                    if desc["lo"]:
-                        main.lo.append("q0")
-            if not main.libs:
-                main.libs = {}
-            main.libs.setdefault("_inc", {"macros": {}, "lo": [], "hi": []})
-            # "_inc" only enables include statements; it is never printed as an alias
-            main.libs = {k: v for k, v in main.libs.items()}
+                head.append(["from", "lib", [[n, None] for n in names] + ([["p0", "q0"]] if desc["lo"] else []), ctx])
+                for n in names:
+                    main.macros[n] = desc["macros"][n]
+                    main.used.add(n)
+                if desc["lo"]:
+                    main.lo.append("q0")
         if shape in ("blocks", "extends"):
             names = ["b0", "b1"][: self.i(1, 2)]
             if shape == "extends":
                 base = _Lex()
                 base.toplevel = True
-                bbody = [["text", "B:"]]
-                for n in names:
-                    bbody.extend(self.block(base, 0, 1))
-                    c = base.child(toplevel=False, emit_hi=self.neutral, in_block=True)
-                    bbody.append(["block", n, False, self.block(c, 1, 2)])
+                base.has_inc = main.has_inc
                 base.blocks = list(names)
+                bbody = [["text", "B:"]]
+                for i, n in enumerate(names):
+                    bbody.extend(self.block(base, 0, 1))
+                    c = base.child(toplevel=False, emit_hi=self.neutral, blocks=names[i + 1:])
+                    bbody.append(["block", n, False, self.block(c, 1, 2)])
                 bbody.extend(self.block(base, 0, 2))
                 templates["base"] = bbody
                 head.insert(0, ["extends", "base"])
             body = list(head)
             main.blocks = list(names)
-            for n in names:
+            for i, n in enumerate(names):
                 if shape == "blocks" or self.chance(1, 3):
                     body.extend(self.toplevel_defs(main) if shape == "extends" else self.block(main, 0, 2))
                 if shape == "extends" and self.chance(1, 4):
                     continue
-                c = main.child(toplevel=False, emit_hi=self.neutral, in_block=True, super_ok=shape == "extends")
+                c = main.child(toplevel=False, emit_hi=self.neutral, super_ok=shape == "extends", blocks=names[i + 1:])
                 bb = self.block(c, 1, 3)
                 if shape == "extends" and self.chance(2, 3):
                     bb.insert(self.i(0, len(bb)), ["out", ["call", ["v", "super"], [], []]])
@@ -1101,10 +1135,13 @@ class _Gen:
         return out
 
 
+TAPE = 640
+
+
 @st.composite
-def programs(draw, neutral=False, size=22):
+def programs(draw, neutral=False, size=14, tape=TAPE):
     """Template sets {"main", optionally "inc", "lib", "base"}; see the module docstring."""
-    g = _Gen(draw, neutral, size)
+    g = _Gen(draw(st.binary(min_size=tape, max_size=tape)), neutral, size)
     templates = g.program()
     return {"templates": templates, "entry": "main", "neutral": bool(neutral)}
 
@@ -1113,49 +1150,62 @@ def programs(draw, neutral=False, size=22):
 # data
 
 
+class _Tape:
+    def __init__(self, tape):
+        self.tape, self.pos = tape, 0
+
+    def i(self, lo, hi):
+        if self.pos >= len(self.tape):
+            return lo
+        b = self.tape[self.pos]
+        self.pos += 1
+        return lo + b % (hi - lo + 1)
+
+    def pick(self, seq):
+        return seq[self.i(0, len(seq) - 1)]
+
+
+URL_FORMS = ["see http://ex.org/p?a=1&b=<%s>&c='x' now", "(www.%s.org), <www.ex.org/%s>", "mailto:%s@ex.io me@%s.io \"q\"",
+             "a\n<b>%s</b>\n\n  '3'\n", "https://ex.org/%s?x=1\"&y=<2> tel:+1%s x-tok:%s&", "line one <%s>\nline two & more words to wrap here\n"]
+
+
 @st.composite
 def datas(draw):
     """Render data: every string is ``piece* META token META piece*`` with a unique token zq<N>z (N < 900)."""
+    t = _Tape(draw(st.binary(min_size=160, max_size=160)))
     counter = [0]
-    piece = st.sampled_from(PIECES)
-    meta = st.sampled_from(META)
 
     def rich():
         counter[0] += 1
-        pre = "".join(draw(st.lists(piece, max_size=3)))
-        post = "".join(draw(st.lists(piece, max_size=3)))
-        s = pre + draw(meta) + "zq%dz" % counter[0] + draw(meta) + post
-        return s
+        pre = "".join(t.pick(PIECES) for _ in range(t.i(0, 2)))
+        post = "".join(t.pick(PIECES) for _ in range(t.i(0, 2)))
+        return pre + t.pick(META) + "zq%dz" % counter[0] + t.pick(META) + post
 
     def urlish():
         counter[0] += 1
-        t = "zq%dz" % counter[0]
-        forms = ["see http://ex.org/p?a=1&b=<%s>&c='x' now", "(www.%s.org), <www.ex.org/%s>", "mailto:%s@ex.io me@%s.io \"q\"",
-                 "a\n<b>%s</b>\n\n  '3'\n", "https://ex.org/%s?x=\"1\"&y=<2> tel:+1%s x-tok:%s&", "line one <%s>\nline two & more words to wrap here\n"]
-        f = draw(st.sampled_from(forms))
-        return f.replace("%s", t)
+        return t.pick(URL_FORMS).replace("%s", "zq%dz" % counter[0])
 
     data = {}
     for n in LO_DATA:
-        data[n] = urlish() if draw(st.integers(0, 4)) == 0 else rich()
+        data[n] = urlish() if t.i(0, 4) == 4 else rich()
     for n in LISTS:
-        data[n] = [rich() for _ in range(draw(st.integers(0, 3)))]
+        data[n] = [rich() for _ in range(t.pick((2, 1, 3, 2, 0)))]
     d0 = {}
     for key in XKEYS[:4]:
-        r = draw(st.integers(0, 5))
-        if r >= 2:
+        r = t.i(0, 5)
+        if r <= 3:
             d0[key] = rich()
-        elif r == 1:
-            d0[key] = draw(st.sampled_from([None, 3, ""]))
+        elif r == 4:
+            d0[key] = t.pick([None, 3, ""])
     data["d0"] = d0
-    data["rows"] = [{"k": rich(), "n": draw(st.integers(0, 3)), "g": draw(st.sampled_from(["a", "b<", "b<"]))} for _ in range(draw(st.integers(1, 3)))]
+    data["rows"] = [{"k": rich(), "n": t.i(0, 3), "g": t.pick(["a", "b<", "b<"])} for _ in range(t.i(2, 3))]
     tree = []
-    for _ in range(draw(st.integers(1, 2))):
+    for _ in range(t.i(1, 2)):
         node = {"k": rich(), "n": 1, "g": "a", "c": []}
-        for _ in range(draw(st.integers(0, 2))):
+        for _ in range(t.i(0, 2)):
             node["c"].append({"k": rich(), "n": 2, "g": "b<", "c": []})
         tree.append(node)
     data["tree"] = tree
-    data["n0"] = draw(st.integers(0, 12))
-    data["n1"] = draw(st.sampled_from([0, 1, 2, 3, 30]))
+    data["n0"] = t.i(0, 12)
+    data["n1"] = t.pick([2, 0, 1, 3, 30])
     return data
